@@ -11,6 +11,29 @@ COMMON_NOTE = ("Trusted: Lean kernel; axioms limited to propext/Classical.choice
                "generators (distribution in the evidence file); Go toolchain and standard library. ")
 
 TEXT = {
+    "C07": {
+        "level": "Theorems (Props/C07.lean): varint/field-list/term/predicate/rule/block round trips of an independent protobuf model written from the published schema, "
+                 "operator-code tables mutually inverse with the published enum numbering, symInsert_resolves / prefix stability, buildBlock_resolves and "
+                 "build_then_resolve (what the builders intern is, block for block, what the published symbol rules resolve, version 3), version_gate. Tied to the "
+                 "code by decoding every serialized token with the Lean model, comparing with the content fed to the builders, and re-encoding blocks and envelope byte-for-byte.",
+        "note": COMMON_NOTE + "Modelled, not verified: protobuf-go (replaced by Model/Wire and compared byte-for-byte), proto.Marshal determinism for these map-free messages.",
+        "technique": "Lean 4 proof (encode/decode round trips by induction, symbol-table invariants) + byte-exact differential correspondence",
+    },
+    "C12": {
+        "level": "Theorems (Props/C12.lean): run_perm and applyRule_perm (engine results are invariant, as sets, under permutation of facts and rules; error-freeness too), "
+                 "authorize_perm (same verdict incl. failed ids under permuted facts/rules/queries at every scope), authorize_perm_checks, addFact_idempotent/present, "
+                 "authorize_twice, policy_order_matters (order of policies rightly matters). Tied by presentation variants of AUTHSEQ scenarios incl. variable renamings.",
+        "note": COMMON_NOTE + "Inside the error-free fragment, as the property states. Consistent variable renaming is decided by correspondence + witness search (no theorem).",
+        "technique": "Lean 4 proof (membership-based characterisation + Nodup/Perm counting) + differential correspondence + relational witness search",
+    },
+    "C18": {
+        "level": "Theorems (Props/C18.lean): snapshot_restores (load(fresh, save s) = s for every content), snapshot_equiv (every continuation on every token), "
+                 "snapshot_keeps_policy_order, save_refused_when_dirty, authorize/query set dirty, snapshot_build_then_resolve (symbol re-indexing), policies_roundtrip, "
+                 "load_rejects_other_versions. Tied by save/load inside AUTHSEQ histories (same and different token), byte-exact SNAP decode/re-encode of "
+                 "SerializePolicies output by the Lean model, and malformed snapshots (no panic).",
+        "note": COMMON_NOTE + "Fresh target authorizer only, as the property states.",
+        "technique": "Lean 4 proof (state equality, wire round trip, symbol invariants) + byte-exact differential correspondence + relational witness search",
+    },
     "C02": {
         "level": "Theorems (Props/C02.lean) for all tokens, blocks and authorizer states: attenuation_monotone, attenuation_monotone_suffix, "
                  "refusal_is_stable, failed_checks_prefix, run_error_is_stable, authorityPhase_indep_blocks, on the model of Authorize that follows the "
